@@ -68,7 +68,9 @@ CONTRACTS = [
          serves=['C18', 'C04'], self_type='Dispatcher', requires=[],
          ensures={'within': "ParOf(self, specifier).endswith(('_limits', '_min', '_max'))"
                             ' or Accepted(ModOf(self, specifier), ParOf(self, specifier), data)',
-                  'ordered': 'LimitsOrdered(ModOf(self, specifier))'},
+                  'ordered': 'LimitsOrdered(ModOf(self, specifier))',
+                  # every check_<p> hook of the class hierarchy had its say (the harness knows what the hooks of its layouts refuse)
+                  'hooks': 'not HOOK_REFUSES(specifier, data)'},
          raises={'no_write': "implies(not ParOf(self, specifier).endswith(('_limits', '_min', '_max'))"
                              ' and not Accepted(ModOf(self, specifier), ParOf(self, specifier), data), driver_writes == old(driver_writes))',
                  'ordered': 'LimitsOrdered(ModOf(self, specifier))'}),
